@@ -46,7 +46,7 @@ func numOf(o obj) float64 {
 func elemOf(v interface{}) r.Element {
 	o := v.(map[string]interface{})
 	switch o["t"].(string) {
-	case "null":
+	case "null", "self":
 		return value.NewNull()
 	case "bool":
 		return value.NewBool(o["v"].(bool))
@@ -131,9 +131,13 @@ func iterate(coll r.Element) obj {
 	return okRes(elem)
 }
 
+// the collection the last list method handed back when it is a list other than the receiver (合并, 逆序 ...)
+var lastProduced r.Element
+
 // one operation on a list; returns the result and the (possibly replaced) current list
 func listOp(cur *value.Array, op obj) (obj, *value.Array) {
 	next := cur
+	lastProduced = nil
 	res := guard(func() obj {
 		switch op["op"].(string) {
 		case "iget":
@@ -164,9 +168,21 @@ func listOp(cur *value.Array, op obj) (obj, *value.Array) {
 			}
 			return okNone()
 		case "meth":
-			e, err := cur.ExecMethod(op["m"].(string), elemsOf(op["args"]))
+			// {"t":"self"} among the arguments stands for the receiver itself (以A（合并：B、A）)
+			args := elemsOf(op["args"])
+			if raw, ok := op["args"].([]interface{}); ok {
+				for i, a := range raw {
+					if m, ok := a.(map[string]interface{}); ok && m["t"] == "self" {
+						args[i] = cur
+					}
+				}
+			}
+			e, err := cur.ExecMethod(op["m"].(string), args)
 			if err != nil {
 				return errRes(err)
+			}
+			if a, ok := e.(*value.Array); ok && a != cur {
+				lastProduced = a
 			}
 			return okRes(e)
 		case "rev":
@@ -266,7 +282,7 @@ func newShadow(e r.Element) shadow { return shadow{e, dumpOf(e), textOf(e)} }
 func checkShadows(shs []shadow, res obj) obj {
 	for i, sh := range shs {
 		if !reflect.DeepEqual(dumpOf(sh.e), sh.dump) || !reflect.DeepEqual(textOf(sh.e), sh.text) {
-			return obj{"kind": "crash", "panic": fmt.Sprintf("the collection copied by copy operation #%d changed under an operation on its copy: was %v, is %v",
+			return obj{"kind": "crash", "panic": fmt.Sprintf("the collection kept from earlier step #%d (the original of a copy, or a list a method returned) changed under a later operation on another collection: was %v, is %v",
 				i+1, sh.text, textOf(sh.e)), "alias": true}
 		}
 	}
@@ -285,6 +301,10 @@ var commands = map[string]hlib.Handler{
 			res, cur = listOp(cur, o.(map[string]interface{}))
 			if o.(map[string]interface{})["op"] == "copy" && cur != prev {
 				shs = append(shs, newShadow(prev))
+			}
+			// a list handed back by a method is a value of its own as well: later operations on the receiver leave it alone
+			if lastProduced != nil {
+				shs = append(shs, newShadow(lastProduced))
 			}
 			res = checkShadows(shs, res)
 			steps = append(steps, obj{"r": res, "state": hlib.DumpValue(cur, 0), "text": textOf(cur)})
